@@ -308,7 +308,10 @@ def C03(tier):
 def minmax_models(tier):
     return [
         dict(module="MinMax", name="MC_MinMax",
-             cfg=dict(constants=dict(MaxLen=q(tier, 5, 6), MaxRank=3, Emit=False), invariants=["ScanInv", "SkipScanInv", "DoneOK"], properties=["Terminates"])),
+             cfg=dict(constants=dict(MaxLen=q(tier, 5, 6), MaxRank=3, Emit=False), invariants=["ScanInv", "SkipScanInv", "DoneOK"], properties=["Terminates", "RefinesProof"])),
+        # every length and content: "ok iff non-empty and NaN-free / some element kept", "UndefinedOrder iff a NaN is present", the
+        # designated element is the first extremum - proved with TLAPS on MinMaxAlg; MC_MinMax checks the refinement
+        dict(engine="tlaps", module="MinMaxProof", name="TLAPS_MinMaxProof", deps=["MinMaxAlg"]),
         dict(module="MinMax", name="MC_MinMax_emit", emit=True,
              cfg=dict(constants=dict(MaxLen=q(tier, 5, 5), MaxRank=3, Emit=True), invariants=["DoneOK", "EmitInv"])),
     ]
